@@ -2,13 +2,18 @@ open Model
 open Common
 
 (* shape wire format (decimal ints):
-   sections : "T<keys>" | "X<ob>.<ok>.<op>"      comma separated, newest first
-   ostreams : "<ob>.<ok>.<op>.<n>"               comma separated
-   entries  : "F" | "C" | "P<ob>.<ok>.<op>", each optionally "*<count>", comma separated *)
+   sections : "T<keys>" | "X<passes>.<ok>.<op>"  comma separated, newest first
+   ostreams : "<passes>.<ok>.<op>.<n>"           comma separated
+   entries  : "F" | "C" | "P<passes>.<ok>.<op>", each optionally "*<count>", comma separated
+   passes   : "<d0>+<d1>+..."  DetectKeywordsWithContext iterations per pass of buffer() *)
 let nat s = nat_of_int (int_of_string s)
 let split_nonempty c s = if s = "" then [] else String.split_on_char c s
+(* object: "<d0>+<d1>+...": scanner iterations of each buffer pass, then dict-key polls, then post polls *)
+let mkobj b k p = match List.map nat (String.split_on_char '+' b) with
+  | d0 :: rest -> { od0 = d0; odrest = rest; ok_ = nat k; op = nat p; obig = false }
+  | [] -> failwith "passes"
 let fobj_of s = match String.split_on_char '.' s with
-  | [b; k; p] -> { ob = nat b; ok_ = nat k; op = nat p; obig = false }
+  | [b; k; p] -> mkobj b k p
   | _ -> failwith "fobj"
 let section_of s =
   let body = String.sub s 1 (String.length s - 1) in
@@ -17,7 +22,7 @@ let section_of s =
   | 'X' -> SStream (fobj_of body)
   | _ -> failwith "section"
 let ostream_of s = match String.split_on_char '.' s with
-  | [b; k; p; n] -> { os_obj = { ob = nat b; ok_ = nat k; op = nat p; obig = false }; os_n = nat n }
+  | [b; k; p; n] -> { os_obj = mkobj b k p; os_n = nat n }
   | _ -> failwith "ostream"
 let entries_of s =
   List.concat_map (fun tok ->
@@ -28,7 +33,7 @@ let entries_of s =
       | 'P' -> EParse (fobj_of (String.sub item 1 (String.length item - 1)))
       | _ -> failwith "entry kind" in
     List.init cnt (fun _ -> e)) (split_nonempty ',' s)
-let o1 = { ob = O; ok_ = O; op = O; obig = false }
+let o1 = { od0 = O; odrest = []; ok_ = O; op = O; obig = false }
 
 let dispatch fn args = match fn, args with
   | "read", [relaxed; repoff; prefail; sections; nfile; enc; ostreams; entries; k] ->
